@@ -487,3 +487,23 @@ def has_key(pe, d, k):
 
 for _n in ('fut', 'next_future_is', 'fut_file_is', 'fut_kspec_is', 'has_key'):
 	NS[_n] = globals()[_n]
+
+
+def valid_name(pe, name):
+	"""name is one of Genome.ID_ATTRS"""
+	t = to_term(name)
+	return SBool(z3.Or(*[t == z3.StringVal(s) for s in ('key', 'genbank_acc', 'refseq_acc', 'ncbi_id')]))
+
+
+NS['valid_name'] = valid_name
+
+
+MATCHED_COUNT = z3.Function('matched_count', z3.DeclareSort('GenomeSet'), z3.DeclareSort('IdAttr'), z3.ArraySort(I, z3.DeclareSort('IdVal')), I, I)
+
+
+def matched_count(pe, gs, a, ids):
+	"""number of positions of ids whose value is the identifier of a genome of the set (= len of the subset result)"""
+	return SInt(MATCHED_COUNT(gs.term, a.term, ids.arr, ids.length))
+
+
+NS['matched_count'] = matched_count
